@@ -624,7 +624,7 @@ theorem step_dinv {c : Cfg} {s s' : St} (hi : Inv s) (h : DInv c s) (l : Label) 
       · subst hjk; simp [setSub] at hjp
       · simpa only [setSub, upd_other _ _ _ _ hjk] using hjp
   | cancel k =>
-    simp only [step, Option.some.injEq] at hs; subst hs
+    simp only [step] at hs; split at hs <;> simp at hs; subst hs
     exact frameSub k _ ⟨rfl, rfl, rfl, rfl⟩ (fun x => x)
   | pubCall p =>
     simp only [step] at hs; split at hs <;> simp at hs; subst hs
@@ -695,7 +695,7 @@ theorem step_dinv {c : Cfg} {s s' : St} (hi : Inv s) (h : DInv c s) (l : Label) 
     simp only [step] at hs; split at hs <;> simp at hs; subst hs
     exact dinv_congr h rfl rfl rfl rfl
   | shutCancel k =>
-    simp only [step, Option.some.injEq] at hs; subst hs
+    simp only [step] at hs; split at hs <;> simp at hs; subst hs
     exact dinv_congr h rfl rfl rfl rfl
 
 theorem reachable_dinv {c : Cfg} {s : St} (h : Reachable c s) : Inv s ∧ DInv c s := by
